@@ -27,7 +27,9 @@ RULE = (
     "recursively: a sub-expression whose value is unchanged keeps its source text verbatim, dict entries and "
     "keyword arguments are matched by key, sequence elements in the equal common prefix/suffix keep their "
     "text, the number of element texts surviving in order is >= LCS(old values, new values), and the final "
-    "value equals the new value. non-trivial (enum/hyp) = both non-empty, unequal, LCS > 0; (keep_text) = "
+    "value equals the new value. keep_text_sessions: the same cases through real sessions with `fix` and `fix,report` "
+    "(the pending update is displayed but declined): the file must be what the in-process fix-only run writes. "
+    "non-trivial (enum/hyp) = both non-empty, unequal, LCS > 0; (keep_text) = "
     ">= 1 surviving and >= 1 edited element in one container whose surviving text is not canonical."
 )
 ASSUMPTIONS = [
@@ -318,7 +320,37 @@ def check_keep(case):
                        "after": _seg(after, new_arg)} if changed else None}
 
 
+def check_keep_session(case):
+    """the same fix-only repair through real sessions: `--inline-snapshot=fix` and `fix,report` (where the pending
+    update is displayed but declined) must write exactly what the in-process run with {fix} writes"""
+    import shutil
+
+    old, new, text = case["old"], case["new"], case["text"]
+    src = ("from inline_snapshot import snapshot\nfrom vf_prelude import *\n\n\ndef test_a():\n"
+           f"    assert {gv.render(new)} == snapshot({text})\n")
+    ses = drivers.run_inline({"test_a.py": src}, {"fix"})
+    if not ses.ok():
+        return {"nontrivial": False, "classes": ["in-process-run-failed"]}
+    want = ses.files_after["test_a.py"]
+    flags = "fix,report" if len(text) % 2 else "fix"
+    d = drivers.make_project({"test_a.py": src})
+    try:
+        r = drivers.run_pytest(d, ["--inline-snapshot=" + flags])
+        if "INTERNALERROR" in r.stdout or r.returncode not in (0, 1):
+            raise Violation("session-broken", f"rc={r.returncode}\n{src}\n{r.stdout[-1500:]}")
+        got = r.files_after["test_a.py"]
+    finally:
+        shutil.rmtree(d, ignore_errors=True)
+    if got != want:
+        raise Violation("session-differs-from-fix-only",
+                        f"--inline-snapshot={flags} wrote something else than a fix-only run\n--- before\n{src}\n"
+                        f"--- fix only (in process)\n{want.decode()}\n--- session\n{got.decode()}")
+    return {"nontrivial": want != src.encode(), "classes": ["session", flags], "sample": None}
+
+
 ARMS = [
+    HypArm("keep_text_sessions", lambda tier: _keep_case(tier), check_keep_session, signature=keep_signature,
+           budget={"quick": 32, "thorough": 800}, shrink=False),
     EnumArm("align_enum", _enum, check_pair),
     HypArm("align_hyp", _pair_strategy, check_pair, budget={"quick": 3000, "thorough": 200000}),
     HypArm("keep_text", lambda tier: _keep_case(tier), check_keep, signature=keep_signature,
